@@ -858,7 +858,7 @@ class DataType(object):
                         # like NaN or INF
                         raise ValueError
                     normalized.add('%E' % float(value))
-            except ValueError:
+            except (TypeError, ValueError, OverflowError):
                 raise EDXMLEventValidationError(
                     'Invalid floating point value in list: "%s"' % '","'.join([repr(value) for value in values])
                 )
